@@ -1,6 +1,7 @@
 package vc
 
 import (
+	"sort"
 	"fmt"
 	"go/types"
 	"strings"
@@ -39,6 +40,15 @@ func invokeKey(cc *ssa.CallCommon) string {
 func (c *VCtx) invokeModel(cc *ssa.CallCommon) *model {
 	if m := invokeModels[invokeKey(cc)]; m != nil {
 		return m
+	}
+	// instantiated generic interface: drop the type arguments
+	if k := invokeKey(cc); strings.Contains(k, "[") {
+		recv := types.TypeString(cc.Value.Type(), nil)
+		if i := strings.Index(recv, "["); i > 0 {
+			if m := invokeModels[recv[:i]+"."+cc.Method.Name()]; m != nil {
+				return m
+			}
+		}
 	}
 	// by method name on any interface embedding the same method (e.g. io.ReadCloser.Read)
 	if m := invokeModels["*."+cc.Method.Name()+":"+types.TypeString(cc.Method.Type(), nil)]; m != nil {
@@ -208,6 +218,8 @@ func (c *VCtx) callbackCall(fr *Frame, st *State, cc *ssa.CallCommon, f *Term, a
 			c.setHeap(st, hn, Store(h, f, t))
 		}
 	}
+	fr.callbacks++
+	c.pointAsserts(fr, st, fmt.Sprintf("callback %d", fr.callbacks), cc.Pos())
 	// a cancel function obtained from context.WithCancel cancels its context
 	cx := c.cancelOf(f)
 	c.cancelCtx(st, cx, Not(Eq(cx, Null)))
@@ -332,7 +344,47 @@ func (c *VCtx) applyContract(fr *Frame, st *State, cc *ssa.CallCommon, ct *FuncC
 				}
 			}
 		}
+		// objects created by this invocation that the callee cannot reach keep their fields
+		c.publish(fv)
+		for _, a := range args {
+			c.publish(a)
+		}
+		private := c.privateObjects()
+		type keep struct {
+			heap string
+			key  *Term
+			val  *Term
+		}
+		var kept []keep
+		if len(private) > 0 {
+			var hs []string
+			for k, srt := range c.heapSorts {
+				ks, _ := arrParts(srt)
+				if ks == SRef && (strings.HasPrefix(k, "F:") || strings.HasPrefix(k, "G:")) {
+					hs = append(hs, k)
+				}
+			}
+			sort.Strings(hs)
+			for _, k := range hs {
+				for _, po := range private {
+					// only the heaps of the object's own fields (and ghost fields)
+					if !strings.HasPrefix(k, po.fprefix) && (po.gprefix == "" || !strings.HasPrefix(k, po.gprefix)) {
+						continue
+					}
+					h := c.heap(st, k, c.heapSorts[k])
+					kept = append(kept, keep{k, po.ref, c.name("keep", Select(h, po.ref))})
+				}
+			}
+		}
 		c.havocAll(st)
+		for _, kp := range kept {
+			h := c.heap(st, kp.heap, c.heapSorts[kp.heap])
+			st.heaps[kp.heap] = Store(h, kp.key, kp.val)
+		}
+		for _, po := range private {
+			// nor can the callee have made any ghost map refer to them
+			c.noGhostRefs(st, po.ref)
+		}
 		for k, v := range savedHeaps {
 			st.heaps[k] = v
 		}
@@ -556,8 +608,18 @@ func (c *VCtx) builtin(fr *Frame, st *State, b *ssa.Builtin, cc *ssa.CallCommon,
 		c.safety(fr, st, "close", And(Not(Eq(ch, Null)), Not(c.isClosed(st, ch))), cc.Pos())
 		c.noteClose(fr, st, ch)
 		// the close happens now: this resolves the prophecy closedAt(ch)
+		before := st.clone()
 		n := c.tick(st, ch, false)
 		c.fact(Implies(st.pc, Eq(c.closedAt(ch), n)))
+		if fr.contract != nil {
+			fr.closes++
+			c.runGhost(fr, st, fr.contract, fmt.Sprintf("close %d", fr.closes), nil)
+		}
+		if len(st.held) == 0 && len(c.globalClauses()) > 0 {
+			// close() outside a critical section is an atomic action of its own
+			c.closeCount++
+			c.assertGlobal(st, before, fmt.Sprintf("close%d", c.closeCount))
+		}
 		return nil
 	case "min", "max":
 		a, b2 := fr.term(cc.Args[0]), fr.term(cc.Args[1])
@@ -863,4 +925,64 @@ func (c *VCtx) lastCallFacts(st, pre *State, args []Val) {
 			}
 		}
 	}
+}
+
+// privateObjects: struct objects allocated by this invocation and not reachable by anybody else yet, with the
+// structs embedded in them; fprefix / gprefix select the heaps of their fields and ghost fields.
+type privObj struct {
+	ref              *Term
+	fprefix, gprefix string
+}
+
+func (c *VCtx) privateObjects() []privObj {
+	var out []privObj
+	seen := map[string]bool{}
+	mk := func(r *Term, t types.Type) {
+		if p, ok := t.(*types.Pointer); ok {
+			t = p.Elem()
+		}
+		po := privObj{ref: r, fprefix: fieldHeapName(t, "")}
+		if sp := c.objectSpec(t); sp != nil {
+			po.gprefix = "G:" + shortPkg(sp.Pkg) + "." + sp.Type + "."
+		}
+		out = append(out, po)
+	}
+	for _, r := range c.allFresh {
+		if !c.isPublished(r) && r.GT != nil {
+			mk(r, r.GT)
+			seen[r.S] = true
+		}
+	}
+	if len(out) == 0 {
+		return nil
+	}
+	var keys []string
+	for k := range c.embedded {
+		keys = append(keys, k)
+	}
+	sort.Strings(keys)
+	for _, k := range keys {
+		info := c.embedded[k]
+		if len(info.chain) > 0 && seen[info.chain[0].term.S] && !seen[k] && info.typ != nil {
+			seen[k] = true
+			mk(T(SRef, k), info.typ)
+		}
+	}
+	return out
+}
+
+func (c *VCtx) isGhostFieldHeap(h string) bool {
+	if !strings.HasPrefix(h, "G:") {
+		return false
+	}
+	for _, pkg := range c.relevantPkgs() {
+		for _, sp := range c.eng.Specs[pkg].Objects {
+			for _, gf := range sp.Ghost {
+				if n, _ := c.ghostFieldHeapFor(sp, gf); n == h {
+					return true
+				}
+			}
+		}
+	}
+	return false
 }
